@@ -43,7 +43,7 @@ type State struct {
 	vals   map[vkey]*Term
 	ints   map[vkey]Lin
 	tuples map[vkey][]cell
-	mem    map[*Term]cell   // address term -> content
+	mem    map[*Term]cell    // address term -> content
 	epoch  map[string]string // alias class -> id of the last kill (memory SSA by class)
 	iv     map[*Term]itv
 	ub     map[*Term]map[*Term]int64 // x <= y + c
